@@ -297,6 +297,7 @@ pub fn worker_main(prop: &str, batch_seed: u64, start: u64, end: u64, stride: u6
     let mut out = std::io::BufWriter::with_capacity(1 << 12, stdout.lock());
     let mut stats = Stats::default();
     let mut seen: BTreeSet<String> = BTreeSet::new();
+    warm_up(batch_seed, prop, start);
     let mut index = start;
     let mut runs_since_flush = 0u64;
     while index < end {
@@ -364,8 +365,42 @@ pub fn worker_main(prop: &str, batch_seed: u64, start: u64, end: u64, stride: u6
     let _ = std::fs::remove_dir(scratch);
 }
 
+/// The first thing a worker process compiles: nothing, a one-file program, or a project with many files -
+/// a pure function of (VERIF_SEED, property, first run index), so that replay can repeat it.
+pub fn warm_up(batch_seed: u64, prop: &str, start: u64) {
+    let mut r = Rng::new(splitmix64(batch_seed ^ tag(prop) ^ tag("warm-up") ^ splitmix64(start)));
+    let root = crate::scenario::SIM_ROOT;
+    match r.below(4) {
+        0 => {}
+        1 => {
+            let mut c = Concrete::new(&format!("{}/warm/main.sy", root));
+            c.files.insert(c.main.clone(), "start :: fn do\n    1 <=> 1\nend\n".into());
+            let _ = execute(&c);
+        }
+        _ => {
+            // a wide project: 8-16 files, so that every file id a later, smaller program can hold is "used up"
+            let n = r.range(8, 16);
+            let mut c = Concrete::new(&format!("{}/warm/main.sy", root));
+            let mut main = String::new();
+            for k in 0..n {
+                main.push_str(&format!("use w{}\n", k));
+                c.files.insert(format!("{}/warm/w{}.sy", root, k), format!("v :: {}\nf :: fn -> int do\n    ret v\nend\n", k));
+            }
+            main.push_str("start :: fn do\n");
+            for k in 0..n {
+                main.push_str(&format!("    w{}.f() <=> {}\n", k, k));
+            }
+            main.push_str("end\n");
+            c.files.insert(c.main.clone(), main);
+            c.no_std = r.chance(1, 4);
+            let _ = execute(&c);
+        }
+    }
+}
+
 /// Re-runs, in the current thread, everything a worker did before `index` (replay of history-dependent classes).
 pub fn rerun_worker_history(prop: &str, batch_seed: u64, start: u64, stride: u64, index: u64, audit: bool) {
+    warm_up(batch_seed, prop, start);
     let env = Env {
         corpus: crate::corpus::load(),
         preamble: props::preamble_text(),
